@@ -307,7 +307,7 @@ func c09Main(c *lib.Ctx) {
 	self, _ := os.Executable()
 	nruns := int(tierN(c.Tier, 8, 64))
 	per := int(tierN(c.Tier, 500, 2500))
-	wd := filepath.Join(lib.VerifDir(), "work", "C09")
+	wd := filepath.Join(lib.OutDir(), "work", "C09")
 	os.MkdirAll(wd, 0o755)
 	gs := []int{2, 4, 16, 64}
 	sigs := map[string]int64{}
@@ -370,7 +370,7 @@ func c09Main(c *lib.Ctx) {
 						c.Known("F5", nil, "data race between concurrent decodes: %s", sig)
 						continue
 					}
-					keep := filepath.Join(lib.VerifDir(), "replay", fmt.Sprintf("C09-race-run%d-s%d.log", r, lib.Seed()))
+					keep := filepath.Join(lib.OutDir(), "replay", fmt.Sprintf("C09-race-run%d-s%d.log", r, lib.Seed()))
 					os.MkdirAll(filepath.Dir(keep), 0o755)
 					os.WriteFile(keep, b, 0o644)
 					c.Violation([]byte(sig), "data race in run %d (G=%d, pool %s): %s (log: %s)", r, g, pool, sig, keep)
